@@ -659,6 +659,12 @@ func chanRecv(i *interpreter, instr *ssa.UnOp, c value) value {
 	if ch == nil {
 		panic(unsupported("receive from nil channel (deadlock)"))
 	}
+	// run pending goroutines ONE AT A TIME until something can be received:
+	// the receiver continues as soon as the first sender is done, the other
+	// goroutines stay pending (they complete later, see vsymDrain)
+	for len(ch.buf) == 0 && !ch.closed && len(i.x.goq) > 0 && i.x.gor == 0 {
+		i.x.runOneGoroutine(i)
+	}
 	if len(ch.buf) == 0 && !ch.closed {
 		i.x.drainGoroutines(i)
 	}
@@ -755,6 +761,21 @@ func (x *pathCtx) drainGoroutines(i *interpreter) {
 	if ran {
 		x.checkRaces()
 	}
+}
+
+// runOneGoroutine runs one pending goroutine body (engine-chosen under
+// vsymSchedAll) to completion.
+func (x *pathCtx) runOneGoroutine(i *interpreter) {
+	k := 0
+	if x.schedAll {
+		k = x.choose(len(x.goq), "goroutine order")
+	}
+	g := x.goq[k]
+	x.goq = append(x.goq[:k:k], x.goq[k+1:]...)
+	x.schedOrder = append(x.schedOrder, g.id-1)
+	x.gor = g.id
+	defer func() { x.gor = 0 }()
+	g.f()
 }
 
 type pendingGo struct {
